@@ -478,4 +478,157 @@ theorem parse_fmt_greedy (r : BlameRec) (file : Option Str) (padA padB : Nat)
       ha ha0 ha1 hts htv htn hn hcode
     simpa [fmtBlame] using this
 
+/-! ### shortest-match author (`authorMode = 1`) -/
+
+/-- No blank of the author is directly followed by a digit (so no later word of the author can be
+the start of a timestamp). -/
+def noBlankDigit : Str → Bool
+  | a :: b :: r => !(a == ' ' && b.isDigit) && noBlankDigit (b :: r)
+  | _ => true
+
+theorem noBlankDigit_tail (c : Char) (v : Str) (h : noBlankDigit (c :: v) = true) : noBlankDigit v = true := by
+  cases v with
+  | nil => rfl
+  | cons b r =>
+    simp only [noBlankDigit, Bool.and_eq_true] at h
+    exact h.2
+
+theorem noBlankDigit_suffix (u v : Str) (h : noBlankDigit (u ++ v) = true) : noBlankDigit v = true := by
+  induction u with
+  | nil => simpa using h
+  | cons c u ih => exact ih (noBlankDigit_tail c (u ++ v) h)
+
+/-- After a blank, blanks and then a non-digit: no timestamp starts here. -/
+theorem tailAt_blank_clean (v' S : Str) (hcl : noBlankDigit (' ' :: v') = true)
+    (hlast : (' ' :: v').getLast? ≠ some ' ') : tailAt (' ' :: v' ++ S) = none := by
+  induction v' with
+  | nil => simp at hlast
+  | cons b r ih =>
+    by_cases hb : b = ' '
+    · subst hb
+      have hcl' := noBlankDigit_tail ' ' (' ' :: r) hcl
+      have hlast' : (' ' :: r).getLast? ≠ some ' ' := by
+        simpa [List.getLast?_cons_cons] using hlast
+      have := ih hcl' hlast'
+      -- one more leading blank does not change what follows the blanks
+      simp only [tailAt, List.cons_append, dropSpaces1] at this ⊢
+      simpa [List.dropWhile] using this
+    · have hnd : b.isDigit = false := by
+        simp only [noBlankDigit, Bool.and_eq_true] at hcl
+        have := hcl.1
+        simpa using this
+      have h1 : dropSpaces1 (' ' :: b :: (r ++ S)) = some (b :: (r ++ S)) := by
+        have := dropSpaces1_spaces 0 b (r ++ S) hb
+        simpa [spaces] using this
+      have h2 : matchPrefix tsPattern (b :: (r ++ S)) = none := by
+        simp [matchPrefix, tsPattern, hnd]
+      simp only [List.cons_append, tailAt, h1, h2]
+
+theorem tailAt_clean (v S : Str) (hne : v ≠ []) (hcl : noBlankDigit v = true)
+    (hlast : v.getLast? ≠ some ' ') : tailAt (v ++ S) = none := by
+  cases v with
+  | nil => exact absurd rfl hne
+  | cons c v' =>
+    by_cases hc : c = ' '
+    · subst hc; exact tailAt_blank_clean v' S hcl hlast
+    · exact tailAt_head_ne c _ hc
+
+theorem splitFirst_author (a' : Str) (hne : a' ≠ []) (hlast : a'.getLast? ≠ some ' ')
+    (hcl : noBlankDigit a' = true) (S : Str) (t0 : Tail) (h1 : tailAt S = some t0) :
+    splitFirst (a' ++ S) = some (a', t0) := by
+  induction a' with
+  | nil => exact absurd rfl hne
+  | cons c rest ih =>
+    cases rest with
+    | nil =>
+      have hc : c ≠ ' ' := by
+        intro e; apply hlast; simp [e]
+      simp [splitFirst, hc, h1]
+    | cons c' rest' =>
+      have hlast' : (c' :: rest').getLast? ≠ some ' ' := by
+        simpa [List.getLast?_cons_cons] using hlast
+      have hcl' := noBlankDigit_tail c (c' :: rest') hcl
+      have ih' := ih (by simp) hlast' hcl'
+      have hnone : tailAt (c' :: rest' ++ S) = none := tailAt_clean (c' :: rest') S (by simp) hcl' hlast'
+      simp only [List.cons_append] at ih' hnone ⊢
+      by_cases hc : c = ' '
+      · subst hc
+        simp only [splitFirst]
+        simp only [splitFirst] at ih'
+        simp [ih']
+      · simp only [splitFirst, hc, hnone]
+        simp only [splitFirst] at ih'
+        simp [ih']
+
+/-- Core of the round trip for the shortest-match author pattern. -/
+theorem parse_fmt_core_lazy (commit author ts : Str) (n : Nat) (code : Str) (F : Str) (padA padB : Nat)
+    (hc : validCommit commit) (hF : '(' ∉ F) (hF2 : F = [] ∨ ∃ f, F = ' ' :: f)
+    (ha : 1 ≤ author.length) (ha0 : author.head? ≠ some ' ') (ha1 : author.getLast? ≠ some ' ')
+    (hcl : noBlankDigit author = true)
+    (hts : tsShape ts = true) (htv : tsValid ts = true) (htn : normTs ts = ts) (hn : n < 2 ^ 64) :
+    parseBlame 1 (commit ++ (F ++ ' ' :: '(' :: (author ++
+      (spaces (padA + 1) ++ (ts ++ (spaces (padB + 1) ++ (Nat.toDigits 10 n ++ ')' :: code)))))))
+      = some ⟨commit, author, ts, n, code⟩ := by
+  have hds_ne : Nat.toDigits 10 n ≠ [] := Nat.toDigits_ne_nil
+  have hds : ∀ c ∈ Nat.toDigits 10 n, c.isDigit = true :=
+    fun c hc => Nat.isDigit_of_mem_toDigits (by decide) (by decide) hc
+  have hS1 := tailAt_gen ts (Nat.toDigits 10 n) code hts hds_ne hds padA padB
+  match author, ha, ha0, ha1, hcl with
+  | c0 :: rest, _, ha0, ha1, hcl =>
+    have hc0 : c0 ≠ ' ' := by
+      intro e; apply ha0; simp [e]
+    have hY : ∃ X, F ++ ' ' :: '(' :: (c0 :: rest ++
+          (spaces (padA + 1) ++ (ts ++ (spaces (padB + 1) ++ (Nat.toDigits 10 n ++ ')' :: code))))) = ' ' :: X := by
+      rcases hF2 with e | ⟨f, e⟩
+      · subst e; exact ⟨_, rfl⟩
+      · subst e; exact ⟨_, rfl⟩
+    obtain ⟨X, hX⟩ := hY
+    have hpc := parseCommit_gen commit hc X
+    have hac := afterCommit_gen F (c0 :: rest ++
+          (spaces (padA + 1) ++ (ts ++ (spaces (padB + 1) ++ (Nat.toDigits 10 n ++ ')' :: code))))) hF
+    rw [hX]
+    simp only [parseBlame, hpc]
+    rw [← hX, hac]
+    cases rest with
+    | nil =>
+      have hn' : n < 18446744073709551616 := by simpa using hn
+      simp only [List.cons_append, List.nil_append]
+      simp [authorAndTail, hc0, hS1, htv, Nat.ofDigitChars_ten_toDigits, hn', htn]
+    | cons c1 rest' =>
+      have hlast : (c1 :: rest').getLast? ≠ some ' ' := by
+        simpa [List.getLast?_cons_cons] using ha1
+      have hcl' := noBlankDigit_tail c0 (c1 :: rest') hcl
+      have hnone : tailAt (c1 :: rest' ++ _) = none :=
+        tailAt_clean (c1 :: rest') (spaces (padA + 1) ++ (ts ++ (spaces (padB + 1) ++ (Nat.toDigits 10 n ++ ')' :: code))))
+          (by simp) hcl' hlast
+      have hsplit := splitFirst_author (c1 :: rest') (by simp) hlast hcl' _ _ hS1
+      simp only [List.cons_append] at hsplit hnone ⊢
+      have hn' : n < 18446744073709551616 := by simpa using hn
+      simp [authorAndTail, hc0, hnone, hsplit, htv, Nat.ofDigitChars_ten_toDigits, hn', htn]
+
+/-- `parse_git_blame_line` inverts the blame line format (author pattern: shortest match, one or
+more characters), provided no blank of the author is directly followed by a digit. The code is
+arbitrary. -/
+theorem parse_fmt_lazy (r : BlameRec) (file : Option Str) (padA padB : Nat)
+    (hc : validCommit r.commit) (hf : ∀ f, file = some f → '(' ∉ f)
+    (ha : 1 ≤ r.author.length) (ha0 : r.author.head? ≠ some ' ') (ha1 : r.author.getLast? ≠ some ' ')
+    (hcl : noBlankDigit r.author = true)
+    (hts : tsShape r.ts = true) (htv : tsValid r.ts = true) (htn : normTs r.ts = r.ts)
+    (hn : r.lineNumber < 2 ^ 64) :
+    parseBlame 1 (fmtBlame r file padA padB) = some r := by
+  obtain ⟨commit, author, ts, n, code⟩ := r
+  simp only at hc ha ha0 ha1 hcl hts htv htn hn
+  cases file with
+  | none =>
+    have := parse_fmt_core_lazy commit author ts n code [] padA padB hc (by simp) (Or.inl rfl)
+      ha ha0 ha1 hcl hts htv htn hn
+    simpa [fmtBlame] using this
+  | some f =>
+    have hF : '(' ∉ (' ' :: f) := by
+      simp only [List.mem_cons, not_or]
+      exact ⟨by decide, hf f rfl⟩
+    have := parse_fmt_core_lazy commit author ts n code (' ' :: f) padA padB hc hF (Or.inr ⟨f, rfl⟩)
+      ha ha0 ha1 hcl hts htv htn hn
+    simpa [fmtBlame] using this
+
 end Blame
